@@ -71,6 +71,14 @@ def definitions(tier):
             out.append(D(mod('trans', D(mod(c1, a, b)), x=0.3)))
             out.append(D(mod(c1, mod('trans', a, x=0.3), b)))
     out.append(D(('>', 0.0, mod('sum', plain[0], plain[1])), ('>=', 2.05, mod('product', plain[3], plain[1]))))
+    # a nested modifier argument with a later-starting range of its own FOLLOWED by a single-range argument that starts below it (all orders)
+    for c1 in ('sum', 'product'):
+        for a, b, c3 in itertools.product(sub[:3], repeat=3):
+            args = [a, D(('>=', 1.6, mod('product' if c1 == 'sum' else 'sum', b, c3))), D(('>', 0.9, c3['ranges'][0][2]))]
+            for perm in itertools.permutations(args):
+                out.append(D(mod(c1, *perm)))
+            out.append(D(('>=', 0.0, mod(c1, D(mod('pow', a, form('constant', 2))), D(('>=', 0.0, form('polynomial', 0.0, 1.0)))))))
+            out.append(D(('>=', -1.0, mod(c1, D(mod('trans', b, x=0.75)), c3))))
     # a multi-range ARGUMENT whose first piece is an unmarked modifier of the same kind as its parent, followed by further ranges
     zero = form('zero')
     for c1 in ('sum', 'product'):
@@ -314,12 +322,12 @@ def run_defs(case):
         except R.NoAPI:
             api = None
         bps = X.breakpoints(d)
-        for r in RS:
-            if X.near_breakpoint(bps, r, 1e-9):
+        for r in RS + [0.0, -0.5]:
+            if X.near_breakpoint(bps, r, 1e-9) and r > 0:
                 continue
             try:
                 ref = X.ev_defn(d, r, env).v
-                sc = ref_scale(d, r, env)
+                sc = ref_scale(d, r, env) if r > 0 else abs(ref) + 1.0
             except (C07.Skip, ZeroDivisionError, ValueError, OverflowError, TypeError):
                 skipped += 1
                 continue
@@ -336,7 +344,7 @@ def run_defs(case):
             if not abs(got - ref) <= 1e-12 * sc + 1e-300:
                 viol.append(dict(sig='definition-value:%s' % top(d), msg='[%s] "%s" at r=%r evaluates to %r, documented meaning %r' % (case['section'], X.render_defn(d), r, got, ref), detail={}))
                 break
-            if api is not None:
+            if api is not None and r > 0:
                 try:
                     av = api(r)
                 except (ZeroDivisionError, ValueError, OverflowError):
